@@ -488,6 +488,104 @@ async fn run(lines: Vec<String>, prop: String, out: &mut Out) {
 				let nontrivial = !frames.is_empty();
 				out.line(line.clone(), o, orc, nontrivial);
 			}
+			"burst" => {
+				// pipelined messages on a fresh connection whose send queue (message_buffer_capacity) is small
+				// and whose peer does not read until everything has been sent: replies pile up behind the
+				// bounded queue.  Every call must still be answered exactly once.
+				let c = case.as_mut().unwrap();
+				let mb: u32 = w[1].parse().unwrap();
+				let dup: usize = w[2].parse().unwrap();
+				let msgs: Vec<Vec<u8>> = w[3..].iter().map(|h| unhex(h)).collect();
+				let env = Env::with_opts(c.env.cfg.clone(), c.env.assembly, Some(mb));
+				let mut peer = env.ws_opts(dup, true).await;
+				let mut released = false;
+				for m in &msgs {
+					if tokio::time::timeout(std::time::Duration::from_secs(1), peer.send(m, false)).await.is_err() {
+						// the server stopped reading until the peer drains: let the peer read
+						if !released {
+							peer.release();
+							released = true;
+						}
+						out.count("burst.send_blocked");
+					}
+				}
+				quiesce().await;
+				if !released {
+					peer.release();
+				}
+				quiesce().await;
+				let frames = peer.take();
+				let mut invs: Vec<String> = env.take_log().iter().map(|(m, p)| format!("{}:{}", hexs(m), hexs(p))).collect();
+				invs.sort();
+				let inv_s = if invs.is_empty() { "-".to_string() } else { invs.join(",") };
+				let mut fh: Vec<String> = frames.iter().map(|f| hexs(&canon_resp(&String::from_utf8_lossy(f)))).collect();
+				fh.sort();
+				let o = format!("b:{}:{} | {}", fh.len(), fh.join(":"), inv_s);
+				// oracle: ids expected vs ids answered, each exactly once
+				let mut orc: Result<(), String> = Ok(());
+				let mut expected: Vec<String> = vec![];
+				let mut arrays_expected = 0usize;
+				for m in &msgs {
+					match plain(m) {
+						Plain::Obj { id: PlainId::InDomain(i), .. } => expected.push(i),
+						Plain::Array(es) => {
+							let refused = match c.env.cfg.batch {
+								BatchRequestConfig::Disabled => true,
+								BatchRequestConfig::Limit(n) => es.len() > n as usize,
+								BatchRequestConfig::Unlimited => false,
+							};
+							if refused {
+								expected.push("null".into());
+								continue;
+							}
+							let mut any = false;
+							for e in es {
+								if let Plain::Obj { id: PlainId::InDomain(i), .. } = plain(e.as_bytes()) {
+									expected.push(i);
+									any = true;
+								}
+							}
+							if any {
+								arrays_expected += 1;
+							}
+						}
+						_ => {}
+					}
+				}
+				let mut got: Vec<String> = vec![];
+				let mut arrays_got = 0usize;
+				for f in &frames {
+					if f.first() == Some(&b'[') {
+						arrays_got += 1;
+						match serde_json::from_slice::<Vec<&RawValue>>(f) {
+							Ok(v) => {
+								for e in v {
+									match check_response(e.get().as_bytes()) {
+										Ok((id, _)) => got.push(id),
+										Err(e) => orc = Err(e),
+									}
+								}
+							}
+							Err(_) => orc = Err(format!("array frame is not JSON: {}", String::from_utf8_lossy(f))),
+						}
+					} else {
+						match check_response(f) {
+							Ok((id, _)) => got.push(id),
+							Err(e) => orc = Err(e),
+						}
+					}
+				}
+				expected.sort();
+				got.sort();
+				if orc.is_ok() && (expected != got || arrays_expected != arrays_got) {
+					orc = Err(format!("pipelined burst (send queue {mb}): expected exactly one response for ids {expected:?} ({arrays_expected} arrays), got {got:?} ({arrays_got} arrays)"));
+				}
+				if peer.is_closed() && orc.is_ok() {
+					orc = Err("connection closed during a pipelined burst".into());
+				}
+				out.count("burst");
+				out.line(line.clone(), o, orc, true);
+			}
 			"http" => {
 				let c = case.as_mut().unwrap();
 				let method = w[1];
@@ -784,6 +882,43 @@ fn sentinel(n: u64) -> String {
 	format!("msg {}", hexs(&format!("{{\"jsonrpc\":\"2.0\",\"id\":\"sentinel\",\"method\":\"echo\",\"params\":[{n}]}}")))
 }
 
+/// pipelined burst: valid calls with distinct ids (all handler kinds, big and failing results),
+/// notifications, and small batches of calls
+fn gen_burst(rng: &mut Rng) -> String {
+	let k = rng.range(2, 40);
+	let mut next_id = 0u64;
+	let mut id = |rng: &mut Rng| {
+		next_id += 1;
+		if rng.chance(1, 4) { format!("\"i{next_id}\"") } else { next_id.to_string() }
+	};
+	fn call(rng: &mut Rng, id: &str) -> String {
+		match rng.below(10) {
+			0 => format!("{{\"jsonrpc\":\"2.0\",\"id\":{id},\"method\":\"str\",\"params\":[{}]}}", rng.range(0, 3000)),
+			1 => format!("{{\"jsonrpc\":\"2.0\",\"id\":{id},\"method\":\"fail\",\"params\":[{}]}}", rng.below(100)),
+			2 => format!("{{\"jsonrpc\":\"2.0\",\"id\":{id},\"method\":\"nope\"}}"),
+			3 => format!("{{\"jsonrpc\":\"2.0\",\"id\":{id},\"method\":\"blk_boom\"}}"),
+			4 => format!("{{\"jsonrpc\":\"2.0\",\"id\":{id},\"method\":\"{}\",\"params\":[{},{}]}}", *rng.pick(&["sum", "a_sum"]), rng.below(100), rng.below(100)),
+			_ => format!("{{\"jsonrpc\":\"2.0\",\"id\":{id},\"method\":\"{}\",\"params\":{}}}", *rng.pick(&["echo", "a_echo", "blk_echo"]), gen_json(rng, 2)),
+		}
+	}
+	let mut msgs: Vec<String> = vec![];
+	for _ in 0..k {
+		match rng.below(12) {
+			0 => msgs.push("{\"jsonrpc\":\"2.0\",\"method\":\"echo\",\"params\":[1]}".into()),
+			1 => {
+				let n = rng.range(1, 4);
+				let es: Vec<String> = (0..n).map(|_| { let i = id(rng); call(rng, &i) }).collect();
+				msgs.push(format!("[{}]", es.join(",")));
+			}
+			2 => msgs.push(format!("{{\"id\":{}}}", id(rng))),
+			_ => { let i = id(rng); msgs.push(call(rng, &i)) }
+		}
+	}
+	let mb = *rng.pick(&[1u32, 1, 2, 3, 8, 1024]);
+	let dup = *rng.pick(&[256usize, 4096, 1 << 22]);
+	format!("burst {mb} {dup} {}", msgs.iter().map(|m| hexs(m)).collect::<Vec<_>>().join(" "))
+}
+
 fn gen_c01(rng: &mut Rng, n: u64, lines: &mut Vec<String>) {
 	let mut cn = 0;
 	let mut left = n;
@@ -800,6 +935,9 @@ fn gen_c01(rng: &mut Rng, n: u64, lines: &mut Vec<String>) {
 		let k = rng.range(3, 12).min(left);
 		for _ in 0..k {
 			lines.push(format!("msg {}", hex(&gen_message(rng, true))));
+		}
+		if cn % 4 == 1 {
+			lines.push(gen_burst(rng));
 		}
 		lines.push(sentinel(cn));
 		left -= k;
